@@ -61,7 +61,7 @@ class DurCtx:
         return c_or(c_lin("le", n - (self.NPC - 1)),
                     c_and(c_lin("eq", n - self.NPC), c_lin("eq", c - 32767)))
 
-    def entry(self, fn, canonical=True, arg_names=None, extra=None):
+    def entry(self, fn, canonical=True, arg_names=None, extra=None, interior=False):
         """Entry states for fn with symbolic arguments; every Duration among them is assumed
         canonical (type invariant established by C02.R1).  -> list of (St, args)"""
         eng = self.eng
@@ -75,6 +75,8 @@ class DurCtx:
             v = eng.sym(fn["locals"][i]["ty"], nm)
             for k2, inner in eng._pending_cells:
                 st.store[k2] = inner
+                eng.sym_cells0 = getattr(eng, "sym_cells0", {})
+                eng.sym_cells0[k2] = inner
                 eng.cell_tids = getattr(eng, "cell_tids", {})
                 t = eng.types[fn["locals"][i]["ty"]]
                 eng.cell_tids[k2] = t.get("to")
@@ -85,7 +87,11 @@ class DurCtx:
                 for d in self.find_durations(a, st):
                     nxt = []
                     for s in states:
-                        nxt.extend(eng.assume(s, self.canonical_cond(d)))
+                        if interior:
+                            # away from the bounds: the value is not MAX (statements that exclude saturation)
+                            nxt.extend(eng.assume(s, c_lin("le", self.parts(d)[1] - (self.NPC - 1))))
+                        else:
+                            nxt.extend(eng.assume(s, self.canonical_cond(d)))
                     states = nxt
         if extra is not None:
             nxt = []
@@ -94,11 +100,11 @@ class DurCtx:
             states = nxt
         return [(s, args) for s in states]
 
-    def run(self, fn, canonical=True, arg_names=None, extra=None):
+    def run(self, fn, canonical=True, arg_names=None, extra=None, interior=False):
         """Explore fn from canonical symbolic arguments. -> (finals, args)"""
         finals = []
         args0 = None
-        for st, args in self.entry(fn, canonical, arg_names, extra):
+        for st, args in self.entry(fn, canonical, arg_names, extra, interior):
             args0 = args
             finals.extend(self.eng.run(fn, args=args, st=st))
         return finals, args0
